@@ -424,6 +424,8 @@ def catalogued(rng, n):
         call(r, 'reshape', 'viewing', [tup(*(r['shape'] + [1]))])
         call(r, 'swap_axes', 'viewing' if len(r['shape']) > 1 else 'self', [py(0), py(-1)])
         call(nro, 'broadcast_to', 'broadcast', [tup(*([2] + r['shape']))])
+        call(nro, 'broadcast_to', 'broadcast', [tup(*([2] + r['shape']))], kw={'recursive': py(False)})
+        call(nro, 'broadcast_to', 'broadcast', [tup(*([7] + [s + 5 for s in r['shape']]))])      # raises, after marking
         m = q(rng, 'Matrix', shape=rng.choice([[2], [3], [2, 2]]), numer=rng.choice([[2, 2], [3, 3]]),
               singular=rng.random() < 0.6)
         m.pop('pyscalar', None)
